@@ -122,6 +122,8 @@ class FftHooks(Hooks):
                 it.probe('check:accept')
                 if isinstance(ev.get('k', {}).get('shape'), str):
                     it.probe('shape_in_caller_array')
+                if tag.get('field_read_and_edited'):
+                    it.probe('field_view_edited_before_propagation')
                 if 'scratch' in ev.get('k', {}):
                     it.probe('scratch:' + tag.get('size', '?'))
                     if tag.get('nfields', 1) > 1:
@@ -182,7 +184,7 @@ class FftScenario(Scenario):
                    'per-axis pixel scales are generated commensurate with one propagation wavelength; otherwise FFT != DFT by construction',
                    'the DFT reference is the real propagate_dft (an error common to both propagators is C01/C02 territory)']
     must_hit = ['grid:odd', 'grid:even', 'odd_pupil_even_grid', 'multifield_scratch', 'scratch:exact', 'scratch:larger',
-                'grid_shrinks', 'grid_grows', 'refuse:short-scratch', 'refuse:tilt', 'refuse:big-shape', 'refuse:tilt-not-angular', 'shape_in_caller_array']
+                'grid_shrinks', 'grid_grows', 'refuse:short-scratch', 'refuse:tilt', 'refuse:big-shape', 'refuse:tilt-not-angular', 'shape_in_caller_array', 'field_view_edited_before_propagation']
     probe_names = must_hit + ['grid:mixed', 'coldwarm_audit']
 
     def make_fns(self):
@@ -306,6 +308,13 @@ class FftScenario(Scenario):
                 rs = nid('R')
                 ev.append(E('propagate_fft', ['@' + w1], ks, id=rs, inplace=['@' + sc],
                             t=dict(tag, size=mode, case=('exact-scratch' if mode == 'exact' else 'larger-scratch'))))
+            if rng.random() < 0.2 or force:
+                # the caller looks at the pupil-plane field and scribbles into the array it was handed (normalise, threshold) before
+                # propagating: the array is the caller's, the wavefront is what it was
+                fv = nid('fv')
+                ev.append(E('attr', ['@' + w1, 'field'], id=fv))
+                ev.append({'env': 'perturb', 'c': c, 'target': '@' + fv, 'seed': sd()})
+                tag = dict(tag, field_read_and_edited=True)
             if sc is None or rng.random() < 0.7 or force:
                 rn = nid('R')
                 ev.append(E('propagate_fft', ['@' + w1], dict(k), id=rn, t=dict(tag)))
@@ -388,7 +397,7 @@ class FftScenario(Scenario):
             ev = progs[c][pos[c]]
             out.append(ev)
             pos[c] += 1
-            if ev['fn'] == 'propagate_fft' and ev.get('t', {}).get('expect') == 'ok' and rng.random() < 0.1:
+            if ev.get('fn') == 'propagate_fft' and ev.get('t', {}).get('expect') == 'ok' and rng.random() < 0.1:
                 d = copy.deepcopy(ev)          # F6: the same propagation issued again (scratch now stale from itself)
                 d['id'] = d['id'] + 'd'
                 out.append(d)
